@@ -116,6 +116,21 @@ pub fn big_verdicts(lines: impl Iterator<Item = String>) {
         let sets = v["sets"].as_bool().unwrap();
         let inp = vec![F::one(); 2];
         tl.evaluations += 1;
+        if v["op"] == "verdict_double_big" {
+            // doubling and Lagrange multiplication of n evaluations of the constant polynomials 1 (resp. 1 and 1) into `ol` evaluations
+            let ones = vec![F::one(); n];
+            for (what, r) in [("double", guarded(|| poly::double_evaluations(ol, &ones))), ("mul_lagrange", guarded(|| poly::mul_lagrange(ol, &ones, &ones)))] {
+                let got = match r {
+                    Ok(Ok(out)) => if out.iter().all(|x| *x == F::one()) { "Ok".to_string() } else { "Ok but the constant polynomial did not double to itself".to_string() },
+                    Ok(Err(e)) => e,
+                    Err(p) => format!("panic: {p}"),
+                };
+                if json!(got) != v["out"] {
+                    tl.mismatch(&format!("ntt/{name}/{what}_size_verdict"), json!({"n": n, "outlen": ol, "expected": v["out"], "got": got}));
+                }
+            }
+            return;
+        }
         let got = match guarded(|| poly::ntt(ol, &inp, n, sets)) {
             Ok(Ok(_)) => "Ok".to_string(),
             Ok(Err(e)) => e,
